@@ -19,6 +19,7 @@ start variable of a task that is *not* placed, so one hopeless task makes the wh
 infeasible.  `hopeless_counterexample` proves (2) on a concrete instance.
 -/
 import ErdosVerif.Lemmas.IlpComplete
+import ErdosVerif.Lemmas.IlpSearch
 import ErdosVerif.Props.C12_Ilp
 namespace ErdosVerif.C14_Ilp
 open ErdosVerif.Mip ErdosVerif.Ilp ErdosVerif.IlpSpec
@@ -194,6 +195,32 @@ theorem gap_exact_10 {v opt : Int} (_hv : 0 ≤ v) (hle : v ≤ opt) (h10 : opt 
 theorem gap_not_exact_at_eleven :
     ∃ v opt : Int, 0 ≤ v ∧ v ≤ opt ∧ opt ≤ 11 ∧ 10 * (opt - v) ≤ v ∧ v ≠ opt :=
   ⟨10, 11, by decide⟩
+
+/-! ### The executable optimum is the specification's maximum -/
+
+/-- The executable checker decides the specification (capacity at every instant follows from
+capacity at the start instants). -/
+theorem validPlanB_iff {I : Inst} {plan : Plan} (hwr : I.wfRunning = true) :
+    validPlanB I plan = true ↔ ValidPlan I plan := IlpSpec.validPlanB_iff hwr
+
+/-- **`optGoodput_spec`.** With all deadlines enforced, the exhaustive search of the model
+returns exactly the maximum goodput over the valid plans (and `none` iff no plan is valid).
+This is the number the suite compares the real scheduler's goodput with. -/
+theorem optGoodput_spec {I : Inst} (hwr : I.wfRunning = true)
+    (henf : ∀ t, t < I.nT → I.running t = false → I.enforce t = true) (m : Nat) :
+    optGoodput I = some m ↔
+      (∃ plan, ValidPlan I plan ∧ goodput I plan = m) ∧ ∀ plan, ValidPlan I plan → goodput I plan ≤ m :=
+  IlpSpec.optGoodput_spec hwr henf m
+
+/-- No feasible point of the model scores more than the exhaustive optimum. -/
+theorem objective_le_optGoodput {I : Inst} {σ : Var → Int} (h : sat σ (gen I)) (hwr : I.wfRunning = true)
+    (hwp : I.wfParents = true) (hwc : I.wfChains = true) (hg : I.goalSlack = false)
+    (henf : ∀ t, t < I.nT → I.running t = false → I.enforce t = true) :
+    ∃ m, optGoodput I = some m ∧ objective σ (gen I) ≤ (m : Nat) := by
+  obtain ⟨m, hm, hle⟩ := IlpSpec.optGoodput_dominates (ilp_sound h hwr hwp hwc) henf
+  refine ⟨m, hm, ?_⟩
+  rw [objective_eq_goodput h hwr hg]
+  exact_mod_cast hle
 
 /-! ### Completeness fails (finding C14-ILP-2): a hopeless task poisons the model -/
 
@@ -568,6 +595,7 @@ example : sat (FullPlan.sigmaOf C12_Ilp.exInst exFull) (gen C12_Ilp.exInst) :=
 
 example : sat C11_Ilp.exSigma (gen C11_Ilp.exInst) := by decide
 example : objective C11_Ilp.exSigma (gen C11_Ilp.exInst) = 2 := by decide
+example : optGoodput hopelessInst = some 1 := by decide
 example : goodput C11_Ilp.exInst (planOf C11_Ilp.exInst C11_Ilp.exSigma) = 2 := by decide
 
 end ErdosVerif.C14_Ilp
